@@ -22,9 +22,11 @@ CHECKS = {
                   'from the AST by PyVC, discharged by z3 (cvc5 on unknown)'),
     'C13': dict(
         category='proof',
-        text="Tolerance law of Guarded.__cmp__ and the six operators (postconditions, all operands, all precision/guard), "
+        text="Tolerance law of Guarded.__cmp__ and the six operators (postconditions, all operands, all precision/guard), every "
+             "comparison recorded in the maxDiff/minDiff statistics (postcondition of __cmp__ and of each operator), "
              "trichotomy as a lemma over those contracts, and guard=0 == Fixed operation by operation (83 lemma checks over "
-             "the two classes' contracts incl. round='up'). Clause 3 (quasi-exact equals exact) is not decided.",
+             "the two classes' contracts incl. round='up'; the bodies of both classes are verified against those contracts in "
+             "this check). Clause 3 (quasi-exact equals exact) is not decided.",
         design_ref='DESIGN 6/C13, 11.2',
         note=COMMON_NOTE + "guard=0 equivalence is proved per operation for valid calls (round in {up,down}); lifting it to "
              "whole counts is the argument 'rules reach V only through these operations' (SCAN V-interface). Clause 3 of the "
@@ -140,8 +142,8 @@ CHECKS = {
     'C10': dict(
         category='proof',
         text="Ballot.vote == weight x multiplier exactly (contract, all arithmetics) so splitting a multiplier cannot change a value; "
-             "inside every sweep over the ballots non-ballot state is updated only by += on exact sums (SCAN: 43 loops), no rule reads "
-             "a ballot's position or line number, a new weight never depends on the multiplier. Text layout / comments / nicknames: "
+             "inside every sweep over the ballots non-ballot state is updated only by += on exact sums and no local is carried from one "
+             "ballot to the next (SCAN: 43 loops), no rule reads a ballot's position or line number, a new weight never depends on the multiplier. Text layout / comments / nicknames: "
              "bounded re-presentation monitor.",
         design_ref='DESIGN 6/C10, 11.14',
         note=COMMON_NOTE + "Commutation of the sweeps is argued from the additive-update scan (not a relational SMT proof); tokenizer "
@@ -197,7 +199,8 @@ CHECKS = {
         text="Election.report/dump/json log the interruption marker exactly once whichever are called (contracts on the three "
              "methods); ElectionRecord.action appends an action only when it is complete (postcondition: all entries present "
              "and the rule hook already run, for every tag; proved on the real body), record['actions'] is only appended to, the header is filled "
-             "on demand before any header key is read, no clock/random/IO in the package (SCAN). Every interruption point is then "
+             "on demand before any header key is read, no clock/random/IO in the package, the command-line driver passes the flag set in its "
+             "KeyboardInterrupt handler to each of report/dump/json (SCAN). Every interruption point is then "
              "exercised by the bounded settrace monitor (KeyboardInterrupt at the k-th line event).",
         design_ref='DESIGN 6/C19, 11.19',
         note=COMMON_NOTE + "'Renderable at every write boundary' is argued from complete-at-append (proved) + append-only (SCAN) + "
